@@ -516,6 +516,10 @@ Definition file_write (f : fs) (es : entries) : fs := foldl fs_step f (write_ste
 (** a sequence of writes to one file *)
 Definition file_writes (f : fs) (ws : list entries) : fs := foldl file_write f ws.
 
+(** All the steps of a sequence of writes, one after the other: a process can be killed
+    between any two of them (and inside [WData], see [Proofs/CodecP5.v]). *)
+Definition all_steps (ws : list entries) : list write_step := concat (map write_steps ws).
+
 (** [store.Read()]: an empty file reads as no locks ([nil, nil]); anything else goes
     through [unmarshalLocks]. *)
 Definition file_read (f : fs) : dec_result :=
